@@ -466,7 +466,10 @@ where
             let this = self.as_mut().project();
             (
                 this.flags.contains(Flags::DRAINING),
+                // when later requests are already queued, `payload` belongs to one of them and
+                // the payload of the request being answered has been read to its end
                 !is_upgrade
+                    && this.messages.is_empty()
                     && should_close_for_unread_payload(
                         this.payload.as_ref(),
                         *this.payload_drainable,
@@ -516,7 +519,10 @@ where
             let this = self.as_mut().project();
             (
                 this.flags.contains(Flags::DRAINING),
+                // when later requests are already queued, `payload` belongs to one of them and
+                // the payload of the request being answered has been read to its end
                 !is_upgrade
+                    && this.messages.is_empty()
                     && should_close_for_unread_payload(
                         this.payload.as_ref(),
                         *this.payload_drainable,
